@@ -104,6 +104,28 @@ def _iter_discipline(loop: ast.AST, lst: str) -> Optional[str]:
     return None
 
 
+def _compensated(fn, cfg, fnode, is_hist_list, param_mutators) -> bool:
+    """the fallible call lies in a try whose handler restores a history list (in place, directly or through a helper
+    that mutates the list parameter it is given) and re-raises on every path"""
+    for t in walk_local(fn):
+        if not isinstance(t, ast.Try) or not any(x is fnode.ast or any(y is fnode.ast for y in ast.walk(x)) for x in t.body):
+            continue
+        for h in t.handlers:
+            restores = False
+            for st in h.body:
+                for x in [st, *ast.walk(st)]:
+                    if isinstance(x, ast.stmt) and any(is_hist_list(e) for e in common.mutated_exprs(x)):
+                        restores = True
+                    if isinstance(x, ast.Call) and is_self_attr(x.func) and x.func.attr in param_mutators:
+                        if any(i < len(x.args) and is_hist_list(x.args[i]) for i in param_mutators[x.func.attr]):
+                            restores = True
+            hn = cfg.node_of_stmt(h)
+            reraises = hn is not None and cfg.exit.id not in cfg.reachable(hn.id) and cfg.raise_exit.id in cfg.reachable(hn.id)
+            if restores and reraises:
+                return True
+    return False
+
+
 def check(ctx, res) -> None:
     idx = ctx.idx
     comp = common.composite_change(idx)
@@ -288,6 +310,8 @@ def check(ctx, res) -> None:
                 # same-iteration path m -> fallible call, then the call's exceptional edge leaves
                 if cfg.exists_path(mn.id, fnode.id, avoiding=loop_heads) and \
                         any(lab == "exc" for _, lab in cfg.succ[fnode.id]):
+                    if _compensated(m.node, cfg, fnode, is_hist_list, param_mutators):
+                        continue
                     bad.append((mn, how, fnode))
             in_finally = False
             for t in walk_local(m.node):
